@@ -159,8 +159,190 @@ fn metric_invariant_numeric(o: &Op, family: &str) -> bool {
     })
 }
 
+// ---------------------------------------------------------------------------------------
+// process histories: the tables must be the seven groups whatever else the process has done
+// before - groups of the user's own (WallpaperGroup is a public struct, a user group may carry
+// any name, a built-in one included), states built from them, on this thread or another.
+// A history needs a process of its own: anything remembered between calls is process state,
+// and this harness has long since used every built-in table by the time a check runs.
+
+const FAMILIES: [packing::CrystalFamily; 4] =
+    [packing::CrystalFamily::Monoclinic, packing::CrystalFamily::Orthorhombic, packing::CrystalFamily::Hexagonal, packing::CrystalFamily::Tetragonal];
+
+fn op_pool() -> Vec<String> {
+    let mut v = vec![];
+    for sx in ["x", "-x"].iter() {
+        for sy in ["y", "-y"].iter() {
+            for tx in ["", "+1/2"].iter() {
+                for ty in ["", "+1/2"].iter() {
+                    v.push(format!("{}{},{}{}", sx, tx, sy, ty));
+                }
+            }
+        }
+    }
+    v
+}
+
+/// one foreign use of a group that carries `name`: returns a description
+fn foreign_use<R: rand::Rng>(rng: &mut R, name: &str, log: &mut Vec<String>) {
+    use packing::traits::State;
+    let pool = op_pool();
+    let builtin = lib_group(name).ok();
+    let m_builtin = builtin.as_ref().map(|g| g.wyckoff_str.len()).unwrap_or(2);
+    let strings: Vec<String> = match rng.gen_range(0, 4) {
+        // another built-in group's table under this name
+        0 => {
+            let other = groups::NAMES[rng.gen_range(0, 7)];
+            lib_group(other).map(|g| g.wyckoff_str.iter().map(|s| s.to_string()).collect()).unwrap_or_default()
+        }
+        // same multiplicity, other operations
+        1 | 2 => {
+            let mut v = vec!["x,y".to_string()];
+            while v.len() < m_builtin {
+                let c = pool[rng.gen_range(0, pool.len())].clone();
+                if !v.contains(&c) {
+                    v.push(c);
+                }
+            }
+            v
+        }
+        // any multiplicity
+        _ => {
+            let m = [1usize, 2, 3, 4, 8][rng.gen_range(0, 5)];
+            let mut v = vec!["x,y".to_string()];
+            while v.len() < m {
+                let c = pool[rng.gen_range(0, pool.len())].clone();
+                if !v.contains(&c) {
+                    v.push(c);
+                }
+            }
+            v
+        }
+    };
+    let family = FAMILIES[rng.gen_range(0, 4)];
+    let g = packing::WallpaperGroup { name, family, wyckoff_str: strings.iter().map(|s| s.as_str()).collect() };
+    let how = rng.gen_range(0, 3);
+    let r = std::panic::catch_unwind(std::panic::AssertUnwindSafe(|| match how {
+        0 => WyckoffSite::new(&g).map(|s| s.symmetries.len()).unwrap_or(0),
+        1 => packing::PackedState::from_group(packing::LineShape::polygon(4).unwrap(), &g).map(|s| s.total_shapes()).unwrap_or(0),
+        _ => packing::PotentialState::from_group(packing::LJShape2::circle(), &g).map(|s| s.total_shapes()).unwrap_or(0),
+    }));
+    log.push(format!("user group named {} {:?} {:?} via {} -> {:?}", name, family, strings, ["WyckoffSite::new", "PackedState::from_group", "PotentialState::from_group"][how], r.ok()));
+}
+
+fn builtin_use<R: rand::Rng>(rng: &mut R, name: &str, log: &mut Vec<String>) {
+    use packing::traits::State;
+    if let Ok(g) = lib_group(name) {
+        let how = rng.gen_range(0, 2);
+        let n = match how {
+            0 => WyckoffSite::new(&g).map(|s| s.symmetries.len()).unwrap_or(0),
+            _ => packing::PackedState::from_group(packing::LineShape::polygon(4).unwrap(), &g).map(|s| s.total_shapes()).unwrap_or(0),
+        };
+        log.push(format!("built-in {} via {} -> {}", name, ["WyckoffSite::new", "PackedState::from_group"][how], n));
+    }
+}
+
+/// runs in a fresh process, before anything else has touched the library
+pub fn child_main(seed: u64) -> ! {
+    use rand::Rng;
+    let prev = std::panic::take_hook();
+    std::panic::set_hook(Box::new(|_| {}));
+    let mut rng = rng_for(seed, 1616);
+    let mut log: Vec<String> = vec![];
+    let n = rng.gen_range(3, 30);
+    // names whose first use in this process is a user's group, and names used as built-ins first
+    let threaded = rng.gen_bool(0.3);
+    let mut body = |rng: &mut rand_pcg::Pcg64Mcg, log: &mut Vec<String>| {
+        for _ in 0..n {
+            let name = groups::NAMES[rng.gen_range(0, 7)];
+            if rng.gen_bool(0.65) {
+                foreign_use(rng, name, log);
+            } else {
+                builtin_use(rng, name, log);
+            }
+        }
+    };
+    if threaded {
+        let mut r2 = rng_for(seed, 1617);
+        let l2 = std::thread::spawn(move || {
+            let mut log = vec![];
+            for _ in 0..6 {
+                let name = groups::NAMES[r2.gen_range(0, 7)];
+                foreign_use(&mut r2, name, &mut log);
+            }
+            log
+        })
+        .join()
+        .unwrap_or_default();
+        log.extend(l2.into_iter().map(|l| format!("[other thread] {}", l)));
+    }
+    body(&mut rng, &mut log);
+    std::panic::set_hook(prev);
+    let mut st = Stats::new();
+    for name in groups::NAMES.iter() {
+        check_group(name, &mut st);
+    }
+    let out = json!({
+        "evaluations": st.evaluations,
+        "history": log,
+        "violations": st.violations.iter().map(|v| json!({"signature": v.signature, "detail": v.detail})).collect::<Vec<_>>(),
+    });
+    println!("C16CHILD {}", out);
+    std::process::exit(0);
+}
+
+pub fn check_history(seed: u64, st: &mut Stats) {
+    st.eval();
+    let exe = match std::env::current_exe() {
+        Ok(e) => e,
+        Err(e) => {
+            st.inconclusive.push(format!("current_exe: {}", e));
+            return;
+        }
+    };
+    let out = match std::process::Command::new(exe).arg("C16").env("PV_C16_HISTORY", seed.to_string()).stderr(std::process::Stdio::null()).output() {
+        Ok(o) => o,
+        Err(e) => {
+            st.inconclusive.push(format!("cannot spawn history child: {}", e));
+            return;
+        }
+    };
+    let txt = String::from_utf8_lossy(&out.stdout);
+    let line = match txt.lines().find(|l| l.starts_with("C16CHILD ")) {
+        Some(l) => &l[9..],
+        None => {
+            st.inconclusive.push(format!("history child {} gave no report (status {:?})", seed, out.status.code()));
+            return;
+        }
+    };
+    let v: serde_json::Value = match serde_json::from_str(line) {
+        Ok(v) => v,
+        Err(e) => {
+            st.inconclusive.push(format!("history child report unreadable: {}", e));
+            return;
+        }
+    };
+    st.add("table_comparisons_after_a_history", v["evaluations"].as_u64().unwrap_or(0));
+    st.add("history_steps", v["history"].as_array().map(|a| a.len() as u64).unwrap_or(0));
+    st.nontrivial(hash64(&[seed, 1616]));
+    st.count("process_histories_run");
+    if let Some(vs) = v["violations"].as_array() {
+        for x in vs.iter() {
+            st.violation(Violation {
+                kind: "c16.history".into(),
+                signature: format!("{}:after-user-groups-in-the-same-process", x["signature"].as_str().unwrap_or("wallpaper::get_wallpaper_group")),
+                case: json!({ "history_seed": seed }),
+                detail: json!({"what": x["detail"], "history": v["history"]}),
+            });
+        }
+    }
+    if st.samples.len() < 2 {
+        st.samples.push(json!({"history_seed": seed, "history": v["history"], "violations": 0}));
+    }
+}
+
 pub fn run(ctx: &Ctx) {
-    ctx.set_rule("finite enumeration: for each of the 7 group names, the operations parsed through get_wallpaper_group -> WyckoffSite::new are compared with the ITA general positions (set equality mod lattice), identity, closure and inverses over ALL ordered pairs, order, mirror/glide/two-fold counts by (det, trace, intrinsic translation), crystal family and invariance of the family's cells; every elementary comparison counts as one distinct non-trivial case");
+    ctx.set_rule("finite enumeration (repeated at the end of random process histories - user-defined groups carrying built-in names, other tables, other multiplicities and families, used through WyckoffSite::new / PackedState::from_group / PotentialState::from_group before, between and after the built-in ones, on one or two threads, each history in a fresh process): for each of the 7 group names, the operations parsed through get_wallpaper_group -> WyckoffSite::new are compared with the ITA general positions (set equality mod lattice), identity, closure and inverses over ALL ordered pairs, order, mirror/glide/two-fold counts by (det, trace, intrinsic translation), crystal family and invariance of the family's cells; every elementary comparison counts as one distinct non-trivial case");
     *ctx.exhaustive.lock().unwrap() = true;
     ctx.assume("the ITA tables in harness/src/oracle/groups.rs are transcribed correctly");
     let mut st = Stats::new();
@@ -176,10 +358,21 @@ pub fn run(ctx: &Ctx) {
     }
     ctx.extra("groups_checked", json!(groups::NAMES));
     ctx.merge(st);
+    // the same enumeration at the end of random process histories, each in a process of its own
+    let n = ctx.tier.pick(2u64, 40u64);
+    let seed = ctx.seed;
+    par_shards(ctx, 16, 16, |i, _, st| {
+        for k in 0..n {
+            check_history(seed.wrapping_mul(1_000_003).wrapping_add(i * 10_000 + k), st);
+        }
+    });
 }
 
 pub fn replay(ctx: &Ctx, case: &serde_json::Value) {
     let mut st = Stats::new();
+    if let Some(h) = case.get("history_seed").and_then(|h| h.as_u64()) {
+        check_history(h, &mut st);
+    }
     if let Some(g) = case.get("group").and_then(|g| g.as_str()) {
         if groups::group(g).is_some() {
             check_group(g, &mut st);
